@@ -56,6 +56,20 @@ CHECKS = {
                      "find the counterexamples of the two named deviations. Histories are replayed against the real cache set to the model's "
                      "capacity through the verif hook, and at production capacity with floods of fresh (type, name) pairs.",
                 ref="DESIGN.md 6/C20", note=_NOTE, technique="TLA+ memo model (CacheUnobservable) + TLC exhaustive/simulation, history replay at model capacity via hook"),
+    "C03": _c("Map-consuming programs classified by TLC as order-sensitive (reference output changes under a permutation of the key order), "
+              "every short date format, values carrying addresses; 24 renders on fresh engines/context values + 8 with reversed insertion "
+              "order, in 3 independent sets of processes, all byte-identical (no reference order assumed).",
+              "TLA+ order-sensitivity classification + TLC enumeration, metamorphic replay (repeat / reinsertion / cross-process)", "DESIGN.md 6/C03"),
+    "C16": _c("CompiledFmt.tla (byte layout, Decode o Encode = id, prefixes rejected, checked by TLC); names x sources x timestamps x contexts "
+              "driven through Compile/Serialize/Deserialize/RegisterCompiled/LoadFromCompiledData/CompiledLoader on real engines; "
+              "the serialised bytes are validated against the layout by the TLC trace spec Trace_C16.",
+              "TLA+ format model + TLC enumeration, replay on real engines, TLC trace validation of written bytes", "DESIGN.md 6/C16"),
+    "C18": dict(level="exploration",
+                text="TLC enumerates filter chains, re-observations of intermediate values and scope writes over shared nested data and computes "
+                     "what they print (values are immutable in the reference semantics); each case is rendered twice with the SAME context value "
+                     "and a deep snapshot of the caller's data (incl. slice capacity windows) is compared before/after.",
+                ref="DESIGN.md 6/C18", note=_NOTE + " The verdict on mutation is an observation of the real code (snapshot), hence exploration.",
+                technique="TLC-enumerated programs with model expectations + deep snapshot of caller data around two shared renders"),
     "C17": _c("Corpus with a spy at every callback position; every single-fault placement, loader faults, unresolved names; 6 render variants.",
               "TLA+ Exec with fault schedule (Surfaces) + TLC fault enumeration, spec-to-code replay", "DESIGN.md 6/C17"),
 }
